@@ -17,8 +17,9 @@ Ltac zprop :=
     ?negb_true_iff, ?negb_false_iff, ?Z.eqb_eq, ?Z.eqb_neq, ?Z.leb_le, ?Z.leb_gt in *.
 
 Ltac zb :=
-  unfold start_byte_ok, raw_byte_ok, is_ws, is_digit, is_alpha_us, is_word_byte, is_alnum_us, is_alpha,
-    is_nl, is_cont, is_ascii, in_range in *;
+  unfold start_byte_ok, raw_byte_ok in *;
+  unfold is_word_byte, is_alnum_us in *; unfold is_alpha_us in *;
+  unfold is_ws, is_digit, is_alpha, is_nl, is_cont, is_ascii in *; unfold in_range in *;
   zprop; lia.
 
 (* ------------------------------------------------------------------ byte classes *)
@@ -238,5 +239,273 @@ Proof.
       rewrite nt_dispatch by reflexivity. cbv zeta.
       change ((35 =? 35)%Z) with true. cbv iota.
       rewrite skip_comment_body by assumption. rewrite IH by assumption.
-      f_equal. f_equal. rewrite !app_length. cbn [length]. rewrite !app_length. cbn [length]. lia.
+      f_equal. f_equal. cbn [length]. rewrite !app_length. cbn [length]. lia.
+Qed.
+
+(* ------------------------------------------------------------------ one token: expected result *)
+
+Definition expect (k : tok) (payload : bytes) (o : bool) (p n : nat) (follow : bytes)
+  : outcome (token * cursor * list diag) :=
+  Ok ({| t_kind := k; t_payload := payload; t_owned := o; t_start := p; t_end := p + n |},
+      {| c_rest := follow; c_pos := p + n |}, []).
+
+(* right boundary of word-like tokens and numbers: the next byte is no word byte and no
+   continuation byte (the scanner re-slices the source there) *)
+Definition stops_word (follow : bytes) : Prop :=
+  match follow with b :: _ => is_word_byte b = false /\ is_cont b = false | [] => True end.
+
+Lemma stops_word_bhead : forall l, stops_word l -> bhead l.
+Proof. intros [|b l] H; [exact I|]. destruct H as [_ H]. exact H. Qed.
+
+Lemma alpha_dispatch : forall b, is_alpha_us b = true ->
+  is_ws b = false /\ (b =? 35)%Z = false /\ mem_z b quote_bytes = false /\
+  assoc_z b punct_table = None /\ is_digit b = false /\ is_cont b = false.
+Proof.
+  intros b H. refine (conj _ (conj _ (conj _ (conj _ (conj _ _))))); try zb.
+  - unfold quote_bytes. cbn [mem_z]. zb.
+  - unfold punct_table. cbn [assoc_z].
+    repeat match goal with
+           | |- context [(b =? ?c)%Z] => destruct (Z.eqb_spec b c) as [e|_]; [exfalso; subst b; discriminate H|]
+           end.
+    reflexivity.
+Qed.
+
+Lemma digit_dispatch : forall b, is_digit b = true ->
+  is_ws b = false /\ (b =? 35)%Z = false /\ mem_z b quote_bytes = false /\
+  assoc_z b punct_table = None /\ is_cont b = false.
+Proof.
+  intros b H. refine (conj _ (conj _ (conj _ (conj _ _)))); try zb.
+  - unfold quote_bytes. cbn [mem_z]. zb.
+  - unfold punct_table. cbn [assoc_z].
+    repeat match goal with
+           | |- context [(b =? ?c)%Z] => destruct (Z.eqb_spec b c) as [e|_]; [exfalso; subst b; discriminate H|]
+           end.
+    reflexivity.
+Qed.
+
+Lemma word_ok_inv : forall w, word_ok w = true ->
+  exists b t, w = b :: t /\ is_alpha_us b = true /\ forallb is_word_byte w = true.
+Proof.
+  intros [|b t] H; cbn [word_ok] in H; [discriminate|]. bsplit. exists b, t.
+  refine (conj eq_refl (conj H _)). cbn [forallb]. rewrite (alpha_us_word _ H), H0. reflexivity.
+Qed.
+
+Lemma read_word : forall w follow p, forallb is_word_byte w = true -> stops_word follow ->
+  skip_while is_word_byte (w ++ follow) p = {| c_rest := follow; c_pos := p + length w |}.
+Proof.
+  intros w follow p Hw Hf. apply skip_while_app; [assumption|].
+  destruct follow as [|x follow]; [exact I|]. destruct Hf as [Hf _]. exact Hf.
+Qed.
+
+(* ------------------------------------------------------------------ punctuation *)
+
+Lemma nt_punct : forall f v s b k follow p,
+  start_byte_ok b = true -> mem_z b quote_bytes = false -> assoc_z b punct_table = Some k ->
+  next_token (S f) v s {| c_rest := b :: follow; c_pos := p |} = expect k [] false p 1 follow.
+Proof.
+  intros f v s b k follow p Hs Hq Hp. unfold start_byte_ok in Hs. bsplit.
+  apply negb_true_iff in H, H1. rewrite nt_dispatch by assumption. cbv zeta.
+  rewrite H1, Hq, Hp. unfold expect, finish, mk_token, adv1. cbn [c_rest c_pos tl].
+  replace (p + 1) with (S p) by lia. reflexivity.
+Qed.
+
+(* ------------------------------------------------------------------ words *)
+
+(* what scan_identifier_or_keyword does after read_word, as a function of the word *)
+Lemma nt_word : forall f v pre w follow,
+  word_ok w = true -> stops_word follow ->
+  next_token (S f) v (pre ++ w ++ follow) {| c_rest := w ++ follow; c_pos := length pre |} =
+  finish (length pre)
+    (let c1 := {| c_rest := follow; c_pos := length pre + length w |} in
+     match assoc_bytes w multi_table with
+     | Some alts =>
+         match try_alternatives c1 alts with
+         | Some (k, c2) => Ok (k, [], false, c2, [])
+         | None => Ok (TIdentifier, w, false, c1, [])
+         end
+     | None =>
+         match assoc_bytes w keyword_table with
+         | Some k => Ok (k, [], false, c1, [])
+         | None => Ok (TIdentifier, w, false, c1, ident_diags w (length pre) (c_pos c1))
+         end
+     end).
+Proof.
+  intros f v pre w follow Hw Hf.
+  destruct (word_ok_inv _ Hw) as (b & t & -> & Hb & Hall).
+  destruct (alpha_dispatch _ Hb) as (H1 & H2 & H3 & H4 & H5 & H6).
+  cbn [app]. rewrite nt_dispatch by assumption. cbv zeta. rewrite H2, H3, H4, H5, Hb.
+  f_equal. unfold scan_identifier_or_keyword. cbn [c_rest c_pos].
+  change (b :: t ++ follow) with ((b :: t) ++ follow).
+  rewrite read_word by assumption. cbn [c_pos].
+  rewrite slice_mid; [reflexivity| cbn [app bhead]; assumption | apply stops_word_bhead; assumption].
+Qed.
+
+Lemma ident_diags_ok : forall w a b, word_ok w = true -> ident_diags w a b = [].
+Proof.
+  intros [|x t] a b H; cbn [word_ok] in H; [discriminate|]. bsplit. cbn [ident_diags].
+  rewrite H, forallb_alnum_word, H0. reflexivity.
+Qed.
+
+Lemma nt_kw : forall f v pre k w follow,
+  kw_word k = Some w -> tk_ok (KKw k) = true -> stops_word follow ->
+  next_token (S f) v (pre ++ w ++ follow) {| c_rest := w ++ follow; c_pos := length pre |} =
+  expect k [] false (length pre) (length w) follow.
+Proof.
+  intros f v pre k w follow Hk Hok Hf. cbn [tk_ok] in Hok. rewrite Hk in Hok. bsplit.
+  rewrite nt_word by assumption. cbv zeta.
+  destruct (assoc_bytes w multi_table); [discriminate|].
+  destruct (assoc_bytes w keyword_table) as [k'|]; [|discriminate].
+  apply tok_eqb_eq in H0. subst k'. reflexivity.
+Qed.
+
+Lemma nt_ident_plain : forall f v pre w follow,
+  word_ok w = true -> assoc_bytes w multi_table = None -> assoc_bytes w keyword_table = None ->
+  stops_word follow ->
+  next_token (S f) v (pre ++ w ++ follow) {| c_rest := w ++ follow; c_pos := length pre |} =
+  expect TIdentifier w false (length pre) (length w) follow.
+Proof.
+  intros f v pre w follow Hw Hm Hk Hf. rewrite nt_word by assumption. cbv zeta.
+  rewrite Hm, Hk. rewrite ident_diags_ok by assumption. reflexivity.
+Qed.
+
+(* ------------------------------------------------------------------ the look-ahead *)
+
+Lemma strip_prefix_app : forall w r, strip_prefix w (w ++ r) = Some r.
+Proof. induction w as [|x w IH]; intro r; cbn [app strip_prefix]; [reflexivity|]. rewrite Z.eqb_refl. apply IH. Qed.
+
+(* a continuation word behind a whitespace run is consumed when no letter follows it *)
+Lemma try_consume_hit : forall g w r p,
+  forallb is_ws g = true -> word_ok w = true ->
+  match r with b :: _ => is_alpha_us b = false | [] => True end ->
+  try_consume_word {| c_rest := g ++ w ++ r; c_pos := p |} w =
+  Some {| c_rest := r; c_pos := p + length g + length w |}.
+Proof.
+  intros g w r p Hg Hw Hr. unfold try_consume_word, skip_whitespace. cbn [c_rest c_pos].
+  destruct (word_ok_inv _ Hw) as (b & t & -> & Hb & _).
+  rewrite skip_while_app; [|assumption|].
+  - cbn [c_rest c_pos]. rewrite strip_prefix_app. destruct r as [|x r]; [reflexivity|].
+    rewrite Hr. reflexivity.
+  - cbn [app]. destruct (alpha_dispatch _ Hb) as (H1 & _). exact H1.
+Qed.
+
+(* the look-ahead fails at once when the first non-blank byte is not the word's first byte *)
+Lemma try_consume_miss : forall c b t,
+  match first_nonws (c_rest c) with Some h => (b =? h)%Z = false | None => True end ->
+  try_consume_word c (b :: t) = None.
+Proof.
+  intros [r p] b t H. unfold try_consume_word, skip_whitespace. cbn [c_rest c_pos] in *.
+  unfold first_nonws in H. rewrite <- (skip_while_rest_drop r p) in H.
+  destruct (c_rest (skip_while is_ws r p)) as [|h r']; cbn [strip_prefix]; [reflexivity|].
+  rewrite H. reflexivity.
+Qed.
+
+Lemma try_alternatives_guard : forall alts c,
+  alts_guard (first_nonws (c_rest c)) alts = true -> try_alternatives c alts = None.
+Proof.
+  induction alts as [|[ws k] alts IH]; intros c H; [reflexivity|].
+  unfold alts_guard in H. cbn [forallb fst] in H. bsplit.
+  destruct ws as [|[|b t] ws]; try discriminate H.
+  cbn [try_alternatives consume_seq]. rewrite try_consume_miss.
+  - apply IH. exact H0.
+  - destruct (first_nonws (c_rest c)) as [h|]; [|exact I]. apply negb_true_iff. exact H.
+Qed.
+
+Lemma nt_ident_multi : forall f v pre w alts follow,
+  word_ok w = true -> assoc_bytes w multi_table = Some alts ->
+  alts_guard (first_nonws follow) alts = true -> stops_word follow ->
+  next_token (S f) v (pre ++ w ++ follow) {| c_rest := w ++ follow; c_pos := length pre |} =
+  expect TIdentifier w false (length pre) (length w) follow.
+Proof.
+  intros f v pre w alts follow Hw Hm Hg Hf. rewrite nt_word by assumption. cbv zeta.
+  rewrite Hm. rewrite try_alternatives_guard by (cbn [c_rest]; assumption). reflexivity.
+Qed.
+
+(* consuming gap0 word0 gap1 word1 ... *)
+Lemma consume_seq_weave : forall words gaps r p,
+  length gaps = length words -> forallb ws_run_ok gaps = true -> forallb word_ok words = true ->
+  match r with b :: _ => is_alpha_us b = false | [] => True end ->
+  consume_seq {| c_rest := weave gaps words ++ r; c_pos := p |} words =
+  ({| c_rest := r; c_pos := p + length (weave gaps words) |}, true).
+Proof.
+  induction words as [|w words IH]; intros gaps r p Hl Hg Hw Hr.
+  - destruct gaps; [|discriminate Hl]. cbn [weave app consume_seq length]. rewrite Nat.add_0_r. reflexivity.
+  - destruct gaps as [|g gaps]; [discriminate Hl|]. cbn [length] in Hl. injection Hl as Hl.
+    cbn [forallb] in Hg, Hw. bsplit. cbn [weave consume_seq].
+    rewrite <- !app_assoc.
+    assert (Hgw : forallb is_ws g = true) by (destruct g; [discriminate|assumption]).
+    rewrite try_consume_hit; try assumption.
+    + rewrite IH by assumption. f_equal. f_equal. rewrite !app_length. lia.
+    + (* what follows this word: the next gap (whitespace) or r *)
+      destruct gaps as [|g' gaps'].
+      * destruct words; [|discriminate Hl]. cbn [weave app]. exact Hr.
+      * destruct words as [|w' words']; [discriminate Hl|]. cbn [weave forallb] in *. bsplit.
+        destruct g' as [|x g']; [discriminate|]. cbn [forallb app] in *. bsplit.
+        cbn [ws_run_ok forallb] in H2. bsplit.
+        destruct (ws_not_word x) as (_ & _ & _ & Ha & _); assumption.
+Qed.
+
+Lemma try_alternatives_sel : forall alts h k words wt c c',
+  alt_sel h k words alts = true -> words = (h :: wt) :: tl words ->
+  first_nonws (c_rest c) = Some h ->
+  consume_seq c words = (c', true) ->
+  try_alternatives c alts = Some (k, c').
+Proof.
+  induction alts as [|[ws k'] alts IH]; intros h k words wt c c' Hs Hw Hf Hc; [discriminate Hs|].
+  cbn [alt_sel] in Hs. cbn [try_alternatives].
+  destruct (tok_eqb k' k) eqn:Ek.
+  - apply tok_eqb_eq in Ek. apply words_eqb_eq in Hs. subst ws k'. rewrite Hc. reflexivity.
+  - destruct ws as [|[|b t] ws]; try discriminate Hs. bsplit.
+    cbn [consume_seq]. rewrite try_consume_miss.
+    + eapply IH; eassumption.
+    + rewrite Hf. apply negb_true_iff. exact H.
+Qed.
+
+Lemma first_nonws_run : forall g x, forallb is_ws g = true -> first_nonws (g ++ x) = first_nonws x.
+Proof.
+  unfold first_nonws. induction g as [|b g IH]; intros x H; [reflexivity|].
+  cbn [forallb] in H. bsplit. cbn [app drop_ws]. rewrite H. apply IH. assumption.
+Qed.
+
+Lemma nt_multi : forall f v pre k w words inner follow,
+  multi_find k multi_table = Some (w, words) -> tk_ok (KMulti k) = true ->
+  inner_ok (KMulti k) inner = true ->
+  match follow with b :: _ => is_alpha_us b = false | [] => True end ->
+  next_token (S f) v (pre ++ (w ++ weave inner words) ++ follow)
+    {| c_rest := (w ++ weave inner words) ++ follow; c_pos := length pre |} =
+  expect k [] false (length pre) (length (w ++ weave inner words)) follow.
+Proof.
+  intros f v pre k w words inner follow Hm Hok Hin Hf.
+  cbn [tk_ok] in Hok. rewrite Hm in Hok. cbn [inner_ok] in Hin. rewrite Hm in Hin. bsplit.
+  apply Nat.eqb_eq in H.
+  destruct (assoc_bytes w multi_table) as [alts|] eqn:Ea; [|discriminate].
+  destruct words as [|[|h wt] words]; try discriminate.
+  destruct inner as [|g inner]; [discriminate H|].
+  assert (Hgw : ws_run_ok g = true) by (cbn [forallb] in H0; bsplit; assumption).
+  assert (Hgne : exists x g', g = x :: g' /\ is_ws x = true).
+  { destruct g as [|x g']; [discriminate|]. cbn [ws_run_ok forallb] in Hgw. bsplit. eauto. }
+  destruct Hgne as (x & g' & -> & Hx).
+  rewrite <- app_assoc.
+  rewrite nt_word; [|assumption|].
+  2:{ cbn [weave app stops_word]. destruct (ws_not_word _ Hx) as (Hx1 & Hx2 & _). split; assumption. }
+  cbv zeta. rewrite Ea.
+  assert (Hc : consume_seq {| c_rest := weave ((x :: g') :: inner) ((h :: wt) :: words) ++ follow;
+                              c_pos := length pre + length w |} ((h :: wt) :: words) =
+               ({| c_rest := follow;
+                   c_pos := length pre + length w + length (weave ((x :: g') :: inner) ((h :: wt) :: words)) |}, true))
+    by (apply consume_seq_weave; assumption).
+  assert (Hfirst : first_nonws (weave ((x :: g') :: inner) ((h :: wt) :: words) ++ follow) = Some h).
+  { cbn [weave]. rewrite <- !app_assoc. rewrite first_nonws_run by (cbn [ws_run_ok] in Hgw; exact Hgw).
+    cbn [app]. unfold first_nonws. cbn [drop_ws].
+    assert (Hwh : word_ok (h :: wt) = true) by (cbn [forallb] in H3; bsplit; assumption).
+    destruct (word_ok_inv _ Hwh) as (b & t & E & Hb & _).
+    injection E as -> ->. destruct (alpha_dispatch _ Hb) as (Hws & _). rewrite Hws. reflexivity. }
+  match goal with
+  | |- finish _ (match try_alternatives ?c0 ?a0 with _ => _ end) = _ =>
+      assert (Ht : try_alternatives c0 a0 = Some (k, {| c_rest := follow;
+                                   c_pos := length pre + length w +
+                                            length (weave ((x :: g') :: inner) ((h :: wt) :: words)) |}))
+        by exact (try_alternatives_sel alts h k ((h :: wt) :: words) wt c0 _ H2 eq_refl Hfirst Hc);
+      rewrite Ht
+  end.
+  unfold expect, finish, mk_token. cbn [c_pos]. rewrite app_length, Nat.add_assoc. reflexivity.
 Qed.
